@@ -8,18 +8,21 @@
                       (inside SetResult after the swap): publish the result and close done).  ch is the select choice the
                       implementation made when both Await cases were ready (1 = ctx.Done), read off the result
             [4 i]     cancel the context of caller i
-            [5 i k]   the user callback running on goroutine actor i returns: k=0 value i+1, k=1 error i+1, k=2 context.Canceled
+            [5 i k]   the user callback running on goroutine actor i returns: k=0 value i+1, k=1 error i+1, k=2 context.Canceled,
+                      k>=3 the non-zero value k-2 TOGETHER WITH error i+1 (Once drops the value: every caller sees (0, error i+1))
    Observation: two integers per actor, in order of creation (callback goroutines become actors when the callback is entered)
             1 0 caller parked at gate 1     2 0 caller blocked in Await    3 v returned (v,nil)   4 0 returned Canceled
-            5 e returned error e            6 c goroutine inside the user callback (c=1: its ctx was cancelled on entry)
+            5 p returned (v, error e), p = v*2^20 + e (so p = e when the value is the zero value)
+            6 c goroutine inside the user callback (c=1: its ctx was cancelled on entry)
             7 0 goroutine at gate 2         8 0 goroutine at gate 3         9 0 goroutine finished
             10 0 goroutine inside SetResult between the swap of isDone and the publication
             11 0 the Resolve call panicked (the model never produces it; clause 8)
    ---- memo ----
-   Events   [1]       call the memoized function in a new actor      [2 i k]  fn (running on actor i) returns: k=0 value i+1, k=1 error i+1
+   Events   [1]       call the memoized function in a new actor
+            [2 i k]   fn (running on actor i) returns: k=0 (i+1, nil), k>=1 the value k-1 TOGETHER WITH error i+1 (k=1: (0, error))
             [3 n w]   n new actors call it at the same moment (no schedule point inside memo: they race for real); w = which of
                       them won the swap, read off the implementation (0 when fn had been entered before)
-   Observation per actor:  6 0 inside fn    2 0 blocked on done    3 v / 5 e returned *)
+   Observation per actor:  6 0 inside fn    2 0 blocked on done    3 v returned (v,nil) / 5 p returned (v, error e), p = v*2^20 + e *)
 From Util Require Import Common.Base Common.ListLemmas Once.Model.
 
 Inductive hact := HC (a : nat) | HG (g : nat).
@@ -64,8 +67,13 @@ Definition await (s : st) (a : nat) (ch : N) : st :=
 (* closing done wakes every waiter of that promise (they run to their next gate or return) *)
 Definition settle (s : st) : st := fold_left (fun s a => step s (WakeDone a)) (seq 0 (length (cs s))) s.
 
+(* a (value, error) pair as one integer: the error id in the low 20 bits *)
+Definition epack (v id : N) : N := (v * 1048576 + id)%N.
+
+(* k >= 3: the callback returns a non-zero value together with the error; Once passes (zero value, error) on *)
 Definition outcome (i k : N) : option res :=
-  (if N.eqb k 0 then Some (RVal (i + 1)) else if N.eqb k 1 then Some (RErr (i + 1)) else if N.eqb k 2 then Some RCanceled else None)%N.
+  (if N.eqb k 0 then Some (RVal (i + 1)) else if N.eqb k 2 then Some RCanceled
+   else if N.leb k 64 then Some (RErr (i + 1)) else None)%N.
 
 Definition hstep (h : hst) (e : list N) : option (hst * list N) :=
   let s := ms h in
@@ -139,19 +147,30 @@ Record mact := { mcaller : bool;        (* a Resolve call (true) or a callback g
                  mcanc : bool;          (* caller: its context was cancelled *)
                  mretd : bool;          (* caller: already observed returned *)
                  mout : N;              (* goroutine: 0 callback still running, 1 returned a value, 2 an error, 3 Canceled *)
-                 mpub : option nat }.   (* goroutine whose callback returned an error: step at which the error was first
+                 mpub : option nat;     (* goroutine whose callback returned an error: step at which the error was first
                                            observed delivered (goroutine finished, or a caller returned it) *)
+                 mstart : nat;          (* goroutine: the actor whose Resolve started this invocation (its context is the callback's) *)
+                 mtaint : bool }.       (* goroutine: the starter's context was already cancelled when the callback returned *)
 Record monst := { mstepno : nat; macts : list mact; msucc : option (N * nat) (* value and step of the successful callback return *) }.
 Definition monit : monst := {| mstepno := 0; macts := []; msucc := None |}.
 
 Definition new_caller (i : nat) (c : bool) : mact :=
-  {| mcaller := true; mborn := i; mcanc := c; mretd := false; mout := 0; mpub := None |}.
-Definition new_gor (i : nat) : mact :=
-  {| mcaller := false; mborn := i; mcanc := false; mretd := false; mout := 0; mpub := None |}.
+  {| mcaller := true; mborn := i; mcanc := c; mretd := false; mout := 0; mpub := None; mstart := 0; mtaint := false |}.
+Definition new_gor (i : nat) (st : nat) : mact :=
+  {| mcaller := false; mborn := i; mcanc := false; mretd := false; mout := 0; mpub := None; mstart := st; mtaint := false |}.
 Definition set_canc (a : mact) : mact :=
-  {| mcaller := mcaller a; mborn := mborn a; mcanc := true; mretd := mretd a; mout := mout a; mpub := mpub a |}.
-Definition set_out (k : N) (a : mact) : mact :=
-  {| mcaller := mcaller a; mborn := mborn a; mcanc := mcanc a; mretd := mretd a; mout := k; mpub := mpub a |}.
+  {| mcaller := mcaller a; mborn := mborn a; mcanc := true; mretd := mretd a; mout := mout a; mpub := mpub a;
+     mstart := mstart a; mtaint := mtaint a |}.
+Definition set_out (k : N) (t : bool) (a : mact) : mact :=
+  {| mcaller := mcaller a; mborn := mborn a; mcanc := mcanc a; mretd := mretd a; mout := k; mpub := mpub a;
+     mstart := mstart a; mtaint := t |}.
+Definition out_code (k : N) : N := (if N.eqb k 0 then 1 else if N.eqb k 2 then 3 else 2)%N.
+(* was the context of the starter of goroutine actor j already cancelled? *)
+Definition starter_canc (acts : list mact) (j : nat) : bool :=
+  match nth_error acts j with
+  | Some g => match nth_error acts (mstart g) with Some c => mcanc c | None => false end
+  | None => false
+  end.
 
 Definition is_ret_code (c : N) : bool := (N.eqb c 3 || N.eqb c 4 || N.eqb c 5)%N.
 (* 11: the call panicked (never produced by the model) *)
@@ -165,7 +184,7 @@ Definition mon_once (m : monst) (e o : list N) : monst * list (nat * nat) :=
     match e with
     | [1; c] => macts m ++ [new_caller i (N.eqb c 1)]
     | [4; j] => upd (macts m) (N.to_nat j) set_canc
-    | [5; j; k] => upd (macts m) (N.to_nat j) (set_out (k + 1))
+    | [5; j; k] => upd (macts m) (N.to_nat j) (set_out (out_code k) (starter_canc (macts m) (N.to_nat j)))
     | _ => macts m
     end%N in
   let succ1 :=
@@ -173,9 +192,11 @@ Definition mon_once (m : monst) (e o : list N) : monst * list (nat * nat) :=
     | [5; j; 0] => match msucc m with None => Some (j + 1, i) | Some x => Some x end
     | _ => msucc m
     end%N in
-  (* 2. actors that appear in the observation without an event of their own are callback entries *)
+  (* 2. actors that appear in the observation without an event of their own are callback entries (started by the
+     actor of the event) *)
   let n_new := length ps - length acts1 in
-  let acts2 := acts1 ++ repeat (new_gor i) n_new in
+  let starter := match e with [3; j; _] => N.to_nat j | _ => 0%nat end%N in
+  let acts2 := acts1 ++ repeat (new_gor i starter) n_new in
   let zs := combine acts2 ps in
   let n_in_cb := length (filter (fun z : mact * (N * N) => N.eqb (fst (snd z)) 6) zs) in
   let newly := filter (fun z : mact * (N * N) => mcaller (fst z) && negb (mretd (fst z)) && is_ret_code (fst (snd z))) zs in
@@ -209,6 +230,16 @@ Definition mon_once (m : monst) (e o : list N) : monst * list (nat * nat) :=
   (* clause 8: no call panics *)
   let f8 := existsb (fun z : mact * (N * N) => N.eqb (fst (snd z)) 11) zs in
   let f5 := canc_blocked || (blocked && negb active) in
+  (* clause 9: "... without preventing other callers from obtaining a result": a caller whose own context is live is
+     never handed the error of an invocation whose starter's context was already cancelled when the callback returned
+     (that failure belongs to the cancelled caller; the others must get a result of their own) *)
+  let bad_taint := fun z : mact * (N * N) =>
+    N.eqb (fst (snd z)) 5 && negb (mcanc (fst z)) &&
+    match nth_error acts2 (N.to_nat (snd (snd z) - 1)) with
+    | Some g => negb (mcaller g) && mtaint g
+    | None => false
+    end in
+  let f9 := existsb bad_taint newly in
   (* 3. bookkeeping *)
   let err_returned := fun e : N => existsb (fun z : mact * (N * N) => N.eqb (fst (snd z)) 5 && N.eqb (snd (snd z)) e) zs in
   let acts3 :=
@@ -221,7 +252,8 @@ Definition mon_once (m : monst) (e o : list N) : monst * list (nat * nat) :=
                       | Some t => Some t
                       | None => if negb (mcaller a) && N.eqb (mout a) 2 && (N.eqb c 9 || err_returned (N.of_nat j + 1)%N)
                                 then Some i else None
-                      end |})
+                      end;
+              mstart := mstart a; mtaint := mtaint a |})
         (combine (seq 0 (length zs)) zs) ++ skipn (length zs) acts2 in
   let fails :=
     (if Nat.ltb 1 n_in_cb then [(16, 1)] else []) ++
@@ -229,7 +261,8 @@ Definition mon_once (m : monst) (e o : list N) : monst * list (nat * nat) :=
     (if f3 then [(16, 3)] else []) ++
     (if f4 then [(16, 4)] else []) ++
     (if f5 then [(16, 5)] else []) ++
-    (if f8 then [(16, 8)] else []) in
+    (if f8 then [(16, 8)] else []) ++
+    (if f9 then [(16, 9)] else []) in
   ({| mstepno := S i; macts := acts3; msucc := succ1 |}, fails).
 
 Definition run_check_once (cfg : list N) (evs obss : list (list N)) : list issue :=
@@ -248,8 +281,9 @@ Definition mobs (s : mst) : list N := flat_map mcode (mcs s).
 
 Definition msettle (s : mst) : mst := fold_left (fun s a => mstep s (MWake a)) (seq 0 (length (mcs s))) s.
 
+(* k >= 1: fn returns the value k-1 together with error i+1; memo hands exactly that pair to every caller *)
 Definition moutcome (i k : N) : option res :=
-  (if N.eqb k 0 then Some (RVal (i + 1)) else if N.eqb k 1 then Some (RErr (i + 1)) else None)%N.
+  (if N.eqb k 0 then Some (RVal (i + 1)) else if N.leb k 64 then Some (RErr (epack (k - 1) (i + 1))) else None)%N.
 
 Definition mhstep (s : mst) (e : list N) : option (mst * list N) :=
   let ret s' := Some (s', mobs s') in
@@ -293,14 +327,15 @@ Definition mon_memo (m : mmon) (e o : list N) : mmon * list (nat * nat) :=
     match e with
     | [2; i; k] => match mm_ret m with
                    | Some x => Some x
-                   | None => Some (if N.eqb k 0 then 3 else 5, i + 1)
+                   | None => Some (if N.eqb k 0 then (3, i + 1) else (5, epack (k - 1) (i + 1)))
                    end
     | _ => mm_ret m
     end%N in
   let returned := filter (fun p : N * N => is_ret_code (fst p)) ps in
   (* clause 6: fn is called once in total *)
   let f6 := Nat.ltb 1 entries || (Nat.ltb 0 (length returned) && Nat.eqb entries 0) in
-  (* clause 7: every returned caller has the result of that call; nobody returns before fn has returned *)
+  (* clause 7: every returned caller has the result of that call, i.e. the full (value, error) pair fn returned;
+     nobody returns before fn has returned *)
   let f7 := existsb (fun p : N * N =>
                        match ret1 with
                        | Some (c, v) => negb (N.eqb c (fst p) && N.eqb v (snd p))
